@@ -73,6 +73,8 @@ def parse(src, chunks, how):
     from pico8.lua import lua as plua
     from pico8.lua import lexer, parser
     if how == 'fresh':
+        from vlib import prelude
+        prelude.lua()
         return plua.Lua.from_lines(chunks if chunks is not None else [src], version=8)
     if how == 'incremental':
         l = plua.Lua(version=8)
